@@ -12,6 +12,11 @@ LIN_FF = ['runonce', 'runonce', 'lbgs', 'direct', 'direct_sub', 'krylov']
 LIN_CPL = ['runonce', 'lbgs', 'direct', 'direct_cyc', 'krylov']
 
 
+def iterative(c):
+    return bool(c['spec']['coupled']) or not (c['cfg'].get('lin') == 'runonce' or
+                                              str(c['cfg'].get('lin', '')).startswith('direct'))
+
+
 class C08(Spec):
     pid = 'C08'
     imports = ['C01.Model', 'C08.Model']
@@ -35,8 +40,8 @@ class C08(Spec):
                    'bounds / line searches under scaling belong to C10']
 
     def gen(self, tier, rng):
-        n = 70 if tier == 'quick' else 1000
-        nvar = 2 if tier == 'quick' else 6
+        n = 70 if tier == 'quick' else 350
+        nvar = 2 if tier == 'quick' else 4
         cases = []
         for k in range(n):
             cpl = (k % 4 == 3)
@@ -71,6 +76,10 @@ class C08(Spec):
     def got_term(self, c):
         s2 = c['scaled'][0]['spec']
         flat = sg.flatten(s2)
+        if iterative(c):
+            # results of iterative solvers are only as good as the solver tolerance in SCALED residual norms;
+            # they are checked by the oracle (scaled vs unscaled run); the model comparison is the scaling arrays
+            return '(VL [scaling_arrays %s %s; VN])' % (sg.gallina_spec(flat), sg.gallina_oscals(s2, flat))
         return '(run_scaled %s %s %s %s)' % (sg.gallina_spec(flat), sg.gallina_oscals(s2, flat),
                                              sg.gallina_vois(flat['desvars']), sg.gallina_vois(flat['responses']))
 
